@@ -450,38 +450,96 @@ func one[T any](c *Ctx, what string, xs []T) T {
 // Unreachable (R2, refusing-arm form): from every block in which the fact
 // `when` is known to hold, the site cannot be reached. At least one such block
 // must exist (otherwise the refusing condition is not tested at all).
-func (c *Ctx) Unreachable(site ssa.Instruction, label string, when FM) bool {
+func (c *Ctx) Unreachable(site ssa.Instruction, label string, when ...FM) bool {
 	c.inst(label + " <- " + c.siteStr(site))
 	c.nontrivial(label + fmt.Sprint(site.Pos()) + shortName(site.Parent()))
 	fn := site.Parent()
-	found := false
-	for _, b := range fn.Blocks {
-		if _, ok := hasFact(FactsAtBlock(b), when); !ok {
-			continue
-		}
-		found = true
+	arms := blocksWhere(fn, when...)
+	if len(arms) == 0 {
+		c.violate(site, nil, label, fmt.Sprintf("%s: the refusing condition is not tested anywhere in %s", label, shortName(fn)), nil)
+		return false
+	}
+	for _, b := range arms {
 		if b == site.Block() || reachableBlocks(b)[site.Block()] {
 			c.violate(site, nil, label, fmt.Sprintf("%s: %s is reachable from the arm where the refusing condition holds (block at %s)", label, instrStr(site), c.P.Pos(posOf(b.Instrs[0]))), nil)
 			return false
 		}
 	}
-	if !found {
-		c.violate(site, nil, label, fmt.Sprintf("%s: the refusing condition is not tested anywhere in %s", label, shortName(fn)), nil)
-		return false
-	}
 	return true
 }
 
 // blocksWhere lists blocks whose entry facts include fm.
-func blocksWhere(fn *ssa.Function, fm FM) []*ssa.BasicBlock {
+func blocksWhere(fn *ssa.Function, fms ...FM) []*ssa.BasicBlock {
 	var out []*ssa.BasicBlock
 	for _, b := range fn.Blocks {
-		if _, ok := hasFact(FactsAtBlock(b), fm); ok {
+		if hasAllFacts(FactsAtBlock(b), fms) {
 			out = append(out, b)
+			continue
+		}
+		// reached through an edge on which the facts hold (the `a || b` refusing
+		// arm is entered by two edges with different facts)
+		for _, p := range b.Preds {
+			if hasAllFacts(edgeFacts(p, b), fms) {
+				out = append(out, b)
+				break
+			}
 		}
 	}
 	return out
 }
+
+func hasAllFacts(fs []Fact, fms []FM) bool {
+	for _, fm := range fms {
+		if _, ok := hasFact(fs, fm); !ok {
+			return false
+		}
+	}
+	return true
+}
+
+// instrsWhere lists instructions of fn satisfying pred.
+func instrsWhere(fn *ssa.Function, pred func(ssa.Instruction) bool) []ssa.Instruction {
+	var out []ssa.Instruction
+	for _, b := range fn.Blocks {
+		for _, in := range b.Instrs {
+			if pred(in) {
+				out = append(out, in)
+			}
+		}
+	}
+	return out
+}
+
+// storesToField lists Store instructions whose address is &x.f.
+func storesToField(fn *ssa.Function, f *types.Var) []*ssa.Store {
+	var out []*ssa.Store
+	isAddr := FieldAddrOf(f)
+	for _, b := range fn.Blocks {
+		for _, in := range b.Instrs {
+			if st, ok := in.(*ssa.Store); ok && isAddr(st.Addr) {
+				out = append(out, st)
+			}
+		}
+	}
+	return out
+}
+
+// statusCodeOfCalls: for every status-constructor call in the given blocks,
+// check that its code argument is the named codes constant.
+func (c *Ctx) statusCodeIn(blocks []*ssa.BasicBlock, fn *ssa.Function, label string, code string) {
+	want := ConstOfObj(c.konst("codes", code))
+	n := 0
+	for _, b := range blocks {
+		for _, in := range b.Instrs {
+			if ci, ok := in.(*ssa.Call); ok && isStatusCtor(&ci.Call) {
+				n++
+				c.ArgIs(ci, 0, label, want)
+			}
+		}
+	}
+	c.Expect(n > 0, nil, fn, label, "no status constructor found on the refusing arm (expected codes."+code+")")
+}
+
 
 type namedFM struct {
 	Label string
